@@ -58,20 +58,24 @@ def faulty_models(ctx):
         else:
             ok = re.search(r"(Invariant|Action property) %s is violated" % want, text) is not None
         return f, ok, core._tail(text, 15)
+    # thorough: all nine deviations; quick: a seed-rotated third of them (each is a separate TLC run)
+    todo = sorted(FAULTS) if ctx.thorough else sorted(FAULTS)[int(ctx.seed) % 3::3]
     with cf.ThreadPoolExecutor(max_workers=3) as ex:
-        res = list(ex.map(one, sorted(FAULTS)))
+        res = list(ex.map(one, todo))
     missed = [f for f, ok, _ in res if not ok]
     if missed:
         raise core.ToolError("stage A: deviations not detected by the model's invariants: %s\n%s" %
                              (missed, [t for f, ok, t in res if not ok][0]))
-    core.log(f"(A') {len(res)} deviations of the reader design each violate the expected invariant")
+    core.log(f"(A') {len(res)} deviations of the reader design each violate the expected invariant: {', '.join(todo)}")
     return len(res)
 
 
 def run(ctx, cases_override=None, only_formats=None):
     # stage A (exhaustive model check + the nine deviation models) runs beside stages B/C: they are independent
     pool = cf.ThreadPoolExecutor(max_workers=2)
-    fut_mc = pool.submit(ctx.mc, "MC_BoundedReader", None, 6, 1200, None, "8g", None, DEVIATIONS)
+    # quick: file lengths 0..16 (41 k states); thorough: 0..24 as in DESIGN (169 k states)
+    mc_cfg = "MC_BoundedReader" if ctx.thorough else "MC_BoundedReader_quick"
+    fut_mc = pool.submit(ctx.mc, "MC_BoundedReader", mc_cfg, 6, 1500, None, "8g", None, DEVIATIONS)
     fut = pool.submit(faulty_models, ctx)
     if cases_override:
         cases, ncases = cases_override, sum(1 for _ in open(cases_override))
